@@ -1,0 +1,34 @@
+//go:build verif
+
+package cronschedule
+
+// Contracts for fvc (see /verif/DESIGN.md). Comment-only file.
+
+//@ pure isSet(t *metav1.Time) bool = t != nil && !t.Time.IsZero()
+
+//@ pure thresholdNs(cfg *configv1alpha1.CronExecutionConfig) Int =
+//@     (cfg.MaxDowntimeThresholdSeconds > 0 ? cfg.MaxDowntimeThresholdSeconds : config.DefaultCronMaxDowntimeThresholdSeconds) * 1000000000
+
+// base: the last recorded schedule time, but not further back than the downtime threshold;
+// a JobConfig that was never scheduled is not back-scheduled at all (base = from).
+//@ pure baseNs(jc *execution.JobConfig, cfg *configv1alpha1.CronExecutionConfig, from time.Time, now time.Time) Int =
+//@     isSet(jc.Status.LastScheduled) ? max(ns(jc.Status.LastScheduled.Time), ns(now) - thresholdNs(cfg)) : ns(from)
+
+//@ pure initialNs(jc *execution.JobConfig, cfg *configv1alpha1.CronExecutionConfig, from time.Time, now time.Time) Int =
+//@     let b = baseNs(jc, cfg, from, now) in
+//@     max(b, max(
+//@        (jc.Spec.Schedule != nil && isSet(jc.Spec.Schedule.LastUpdated)) ? ns(jc.Spec.Schedule.LastUpdated.Time) : b,
+//@        (jc.Spec.Schedule != nil && jc.Spec.Schedule.Constraints != nil && isSet(jc.Spec.Schedule.Constraints.NotBefore))
+//@             ? ns(jc.Spec.Schedule.Constraints.NotBefore.Time) - 1 : b))
+
+// the configured threshold is representable as a time.Duration (see known finding F3: nothing enforces this)
+//@ pure thresholdFits(cfg *configv1alpha1.CronExecutionConfig) bool = cfg.MaxDowntimeThresholdSeconds <= 9223372036
+
+//@ func getInitialTimeForScheduling
+//@   tags C04
+//@   safety overflow, nil
+//@   requires jobConfig != nil && cfg != nil
+//@   ensures [C04] latest-of-bounds: thresholdFits(cfg) ==> ns(result) == initialNs(jobConfig, cfg, fromTime, now)
+//@   ensures [C04] keeps-location: result.Location() == fromTime.Location()
+//@   ensures [C04] never-before-last-scheduled: isSet(jobConfig.Status.LastScheduled) ==> ns(result) >= ns(jobConfig.Status.LastScheduled.Time)
+//@   ensures [C04] never-scheduled-not-backdated: !isSet(jobConfig.Status.LastScheduled) ==> ns(result) >= ns(fromTime)
